@@ -251,7 +251,7 @@ fn hammer(sink: &mut Sink, millis: u64) -> bool {
             let mut records: Vec<Record> = Vec::new();
             let mut lookups = 0u64;
             let base = (t + 1) * 100_000_000;
-            for i in 0..20_000u64 {
+            for i in 0..(millis * 50).clamp(20_000, 150_000) {
                 if stop.load(Ordering::Relaxed) { break; }
                 let key = base + i;
                 let ttl = i % 4 == 0;
